@@ -121,8 +121,11 @@ def pred_cacg(tag, U, lam, norm, floor, scat_zero, fails):
                           'cacg:eig-range:%s' % tag))
         mx = lam.max(-1)
         bad = np.abs(mx - 1) > 1e-12
-        if np.any(bad & ~scat_zero):
-            fails.append(('%s: largest cACG eigenvalue is %.17g, not 1' % (tag, mx[bad & ~scat_zero][0]), 'cacg:eig-max:%s' % tag))
+        # the listed finding is exactly: zero scatter -> every eigenvalue equals the floor; anything else is a new violation
+        stated = scat_zero & np.all(np.abs(lam - floor) <= 1e-12 * floor, axis=-1)
+        if np.any(bad & ~stated):
+            fails.append(('%s: largest cACG eigenvalue is %.17g, not 1' % (tag, mx[bad & ~stated][0]), 'cacg:eig-max:%s' % tag))
+        scat_zero = stated
         if np.any(bad & scat_zero):
             fails.append(('%s covariance_norm=eigenvalue: a class whose weighted scatter matrix is exactly zero (all of its frames are '
                           'zero) gets eigenvalues all equal to the floor %g: maximum %.3g instead of 1' % (tag, floor, mx[bad & scat_zero][0]), K_EIG))
@@ -135,6 +138,7 @@ def pred_cacg(tag, U, lam, norm, floor, scat_zero, fails):
             tr = lam.sum(-1)
             hi = 1 + D * lo[..., 0]
             bad = (tr < 1 - 1e-9) | (tr > hi + 1e-9)
+            scat_zero = scat_zero & np.all(lam == t, axis=-1)       # the listed finding: zero scatter -> all eigenvalues = tiny
             if np.any(bad & ~scat_zero):
                 fails.append(('%s: trace-normalised cACG eigenvalues sum to %.12g, not 1 up to flooring' % (tag, tr[bad & ~scat_zero][0]),
                               'cacg:trace:%s' % tag))
@@ -195,7 +199,7 @@ def pred_gauss(tag, g, ctype, fails):
         fails.append(('%s: Gaussian %s variance %.3g <= 0' % (tag, ctype, cov.min()), 'gauss:not-pd:%s' % tag))
 
 
-def pred_bingham(tag, U, lam, maxc, fails):
+def pred_bingham(tag, U, lam, maxc, eps, fails):
     if not (np.all(np.isfinite(U)) and np.all(np.isfinite(lam))):
         fails.append(('%s: Bingham eigenvectors / eigenvalues contain NaN/Inf' % tag, 'bingham:nonfinite:%s' % tag))
         return
@@ -205,8 +209,10 @@ def pred_bingham(tag, U, lam, maxc, fails):
     if np.isfinite(maxc) and lam.min() < -maxc - tol:
         fails.append(('%s: Bingham eigenvalue %.12g below -max_concentration = %g' % (tag, lam.min(), -maxc), 'bingham:below-min:%s' % tag))
     mx = lam.max(-1)
+    D = lam.shape[-1]
     if np.any(mx > tol):
-        if np.isfinite(maxc):
+        # the listed finding is exactly: finite bound, top lifted by at most (D-1)*eps (theorem C09_bingham_domain_finite)
+        if np.isfinite(maxc) and mx.max() <= (D - 1) * eps * (1 + 1e-6) + tol:
             fails.append(('%s max_concentration=%g: the duplicate-spreading step (anchored at the smallest eigenvalue) lifts the top Bingham '
                           'eigenvalue to %.3g > 0 (eigenvalues must be <= 0 with maximum 0)' % (tag, maxc, mx.max()), K_BING))
         else:
@@ -473,8 +479,9 @@ def eval_model(rp):
         fails.append(('%s: fitted field %s contains NaN/Inf' % (tag, p), 'nonfinite:%s:%s' % (name, p)))
     wfull = pred_weights(name, model, lead, K, N, wca, eps_aff, aff, dead, fails)
     if wfull is not None:
-        coq += coq_weights(rng, name, lead, K, N, wca, aff, sal if name not in mm.INTEGRATION else
-                           (sal if sal is not None else np.ones((*lead, N))), wfull, np.shape(model.weight))
+        # only CACGMMTrainer passes saliency=None on to estimate_mixture_weight (np.mean); every other trainer replaces it by ones
+        sal_w = sal if (sal is not None or name == 'cacgmm') else np.ones((*lead, N))
+        coq += coq_weights(rng, name, lead, K, N, wca, aff, sal_w, wfull, np.shape(model.weight))
     salf = np.ones((*lead, N)) if sal is None else np.asarray(sal, dtype=float)
     s_all = aff * salf[..., None, :]                                  # (..., K, N): what each class trainer receives
     li = tuple(int(rng.integers(0, n)) for n in lead)
@@ -542,7 +549,7 @@ def eval_model(rp):
         cb = model.complex_bingham
         U, lam = np.asarray(cb.covariance_eigenvectors), np.asarray(cb.covariance_eigenvalues)
         maxc = float(T.max_concentration)
-        pred_bingham(tag, U, lam, maxc, fails)
+        pred_bingham(tag, U, lam, maxc, float(T.eigenvalue_eps), fails)
         n_last = int(np.prod(lam.shape[:-1]))
         calls = rec.calls[-n_last:]
         if len(calls) == n_last and np.all(np.isfinite(lam)):
@@ -688,7 +695,7 @@ def eval_single(rp):
     else:
         U, lam = np.asarray(model.covariance_eigenvectors), np.asarray(model.covariance_eigenvalues)
         maxc = float(T.max_concentration)
-        pred_bingham(tag, U, lam, maxc, fails)
+        pred_bingham(tag, U, lam, maxc, float(T.eignevalue_eps), fails)
         n_last = int(np.prod(lam.shape[:-1]))
         if len(rec.calls) == n_last and np.all(np.isfinite(lam)):
             flat = list(np.ndindex(*lam.shape[:-1])).index(li)
